@@ -26,7 +26,7 @@ func TestC10NeverWedges(t *testing.T) {
 
 		// --- the read routine's state when the failure strikes ---
 		state := rapid.SampledFrom([]string{"parked-in-read", "holding-qos1", "holding-qos2", "holding-big", "own-ack-write-parked",
-			"pubrel-write-parked", "dialing", "handshake", "resending", "foreign-writer-parked", "foreign-writer-parked", "skipping-dup-big", "holding-big-tail-outstanding", "connack-arrives-under-slow-save"}).Draw(rt, "readerState")
+			"pubrel-write-parked", "dialing", "handshake", "resending", "foreign-writer-parked", "foreign-writer-parked", "skipping-dup-big", "holding-big-tail-outstanding", "connack-arrives-under-slow-save", "awaits-write-lock-for-pubcomp"}).Draw(rt, "readerState")
 		h.Act("reader state %s", state)
 		h.label("reader-state:" + state)
 		var pending []*sim.Call
@@ -135,6 +135,23 @@ func TestC10NeverWedges(t *testing.T) {
 				// draining) and holds the write lock
 				h.armWrite(rapid.IntRange(0, 5).Draw(rt, "off"), sim.WPark)
 				pending = append(pending, h.pub(0, false))
+			case "awaits-write-lock-for-pubcomp":
+				// an inbound exactly-once message got as far as PUBREC; a
+				// requester sits inside Write (it holds the write lock) when
+				// the PUBREL comes in: the read routine queues up for the
+				// lock with its PUBCOMP. Whatever happens to that writer, the
+				// read routine must not wait for a reconnect: it is the one
+				// to make it.
+				if m := h.brokerSend(2, 10); m != nil {
+					h.App.Step() // the message
+					h.SettleReader("inbound exactly-once message")
+					h.App.Step() // PUBREC goes out
+					h.SettleReader("PUBREC flush")
+					h.armWrite(rapid.IntRange(0, 5).Draw(rt, "off"), sim.WPark)
+					pending = append(pending, h.pub(0, false))
+					h.releaseAcks(1) // PUBREL
+					h.PollQuiet(quiet, func() bool { return false })
+				}
 			case "pubrel-write-parked":
 				c := h.pub(2, false)
 				_ = c
@@ -266,8 +283,15 @@ func TestC10NeverWedges(t *testing.T) {
 			nontrivial = true
 		}
 		var script []sim.DialOutcome
+		resendFails := 0
 		for i := 0; i < fails; i++ {
-			switch rapid.IntRange(0, 4).Draw(rt, "how") {
+			switch rapid.IntRange(0, 5).Draw(rt, "how") {
+			case 5:
+				// dial and handshake pass, then the connection dies right
+				// behind the CONNECT: with transfers pending, the write of
+				// the retransmission fails. A failed attempt like the others.
+				script = append(script, sim.DialOutcome{WFaults: []sim.WFault{{Off: connectLen + rapid.IntRange(0, 3).Draw(rt, "resendCut"), Kind: rapid.SampledFrom([]int{sim.WReset, sim.WTimeout}).Draw(rt, "resendFault")}}})
+				resendFails++
 			case 4:
 				// a Dialer of its own making: it raced two addresses and
 				// cancelled the loser, or ran into its own time limit
@@ -288,6 +312,9 @@ func TestC10NeverWedges(t *testing.T) {
 			}
 		}
 		h.Act("then %d failed connects", fails)
+		if resendFails > 0 {
+			h.label("failed-connect:dies-behind-the-handshake")
+		}
 
 		// --- the application keeps calling ReadSlices ---
 		useBackoff := rapid.Bool().Draw(rt, "useReadBackoff")
@@ -344,6 +371,17 @@ func TestC10NeverWedges(t *testing.T) {
 			if last.Err == nil || last.Big {
 				continue // a message
 			}
+			// An error from ReadSlices which left no live connection: the
+			// client is down until the next call. Online must not be
+			// released in that state, Offline must be.
+			if h.Current() == nil && !errors.Is(last.Err, mqtt.ErrClosed) {
+				if isClosedChan(h.Client.Online()) {
+					h.Failf("ReadSlices returned %q and there is no connection, yet Online is released", last.Err)
+				}
+				if !isClosedChan(h.Client.Offline()) {
+					h.Failf("ReadSlices returned %q and there is no connection, yet Offline is not released", last.Err)
+				}
+			}
 			// after the first loss the scripted failures apply
 			if !scripted {
 				scripted = true
@@ -380,7 +418,9 @@ func TestC10NeverWedges(t *testing.T) {
 					case <-time.After(want + 2*time.Second):
 						h.Failf("ReadBackoff(%v): the channel did not close within %v + 2 s", last.Err, want)
 					}
-					if el := time.Since(start); connLoss && el < want-500*time.Microsecond {
+					// (an attempt which dies behind the handshake may have been a
+					// success when nothing was to be resent: the ramp-up starts over)
+					if el := time.Since(start); connLoss && resendFails == 0 && el < want-500*time.Microsecond {
 						h.Failf("ReadBackoff(%v): the channel closed after %v, the documented idle is at least %v (min %v, max %v, %d-th consecutive failure)", last.Err, el, want, cfg.ReconnectWaitMin, cfg.ReconnectWaitMax, round)
 					}
 				}
